@@ -255,6 +255,10 @@ func New(config ...Config) fiber.Handler {
 
 		// For external Storage we store raw body separated
 		if cfg.Storage != nil {
+			if len(e.body) == 0 {
+				// storages may ignore empty values: the body of the response this one supersedes must not survive
+				manager.del(key + "_body")
+			}
 			manager.setRaw(key+"_body", e.body, expiration)
 			// avoid body msgp encoding
 			e.body = nil
